@@ -2429,3 +2429,92 @@ def custom_init(rep, ex: Explorer):
             okc = (isinstance(cd, Sym) and cd.label == "BASE_CONDS") if with_base else (isinstance(cd, Const) and cd.value is None)
             rep.check(okc, "CUSTOM.init", site, f"conditionals ({slot})", "the conditionals are those of the base passed (none without a base)", extracted=repr(cd)[:80], required="belief_base.conditionals" if with_base else "None", function=site)
     rep.floor("custom constructions evaluated", n, 3)
+
+
+def impacts_observe(rep, ex: Explorer):
+    """IMPACTS.observe (by evaluation): `save_impacts` - the documented way to look at the impact vector of a c-representation -
+    returns the vector the object holds: same numbers, same order, a list of its own or the list itself, and leaves the object
+    as it was; without a vector it raises."""
+    prog = ex.prog
+    qual = f"{CR}.save_impacts"
+    if prog.lookup_method(CR, "save_impacts") is None:
+        raise AnalysisError(f"{qual} not found")
+    fi = prog.lookup_method(CR, "save_impacts")
+    site = fn_label(prog, fi.qualname)
+    n = 0
+    for vec in ([3, 0, 5], [0], [], [2, 2, 1, 0]):
+        held = {}
+
+        def setup(I, vec=vec, held=held):
+            imp = I.new_list([Const(x) for x in vec])
+            me = I.alloc(HObj(CR, {"_impacts": imp, "ranks": I.alloc(HDict()), "signature": I.new_list([Const("a")]), "_metadata": I.alloc(HDict()), "_state": I.alloc(HDict())}))
+            held["me"], held["imp"] = me, imp
+            return [me], {}
+
+        I_ = Interp(prog)
+        paths = I_.explore(fi.qualname, setup)
+        if ex.report is not None:
+            ex.report.absorb_stats(I_)
+        slot = f"impacts {vec}"
+        if len(paths) != 1:
+            raise AnalysisError(f"{site}: {len(paths)} paths on a concrete object ({slot})")
+        p = paths[0]
+        n += 1
+        if p.outcome[0] != "return":
+            rep.violation("IMPACTS.observe", site, slot, "the impact vector of an object that has one is handed out", extracted=f"{p.outcome[0]} {p.outcome[1]!r}"[:100], required=repr(vec), function=site)
+            continue
+        vw = view(p.state, p.outcome[1])
+        got = [x[1].value for x in vw[1] if x[0] == "one" and isinstance(x[1], Const)] if isinstance(vw, tuple) and vw[0] in ("list", "tuple") else repr(vw)
+        rep.check(got == vec, "IMPACTS.observe", site, slot, "save_impacts returns the impact vector the object holds: same numbers in the same order", extracted=repr(got)[:100], required=repr(vec), function=site)
+        me = p.state.heap.get(held["me"].oid)
+        cur = view(p.state, me.attrs.get("_impacts")) if isinstance(me, HObj) else None
+        kept = [x[1].value for x in cur[1] if x[0] == "one" and isinstance(x[1], Const)] if isinstance(cur, tuple) and cur[0] == "list" else repr(cur)
+        rep.check(kept == vec, "IMPACTS.observe", site, slot + " (object afterwards)", "looking at the impacts does not change them", extracted=repr(kept)[:100], required=repr(vec), function=site)
+
+    def setup_none(I):
+        return [I.alloc(HObj(CR, {"_impacts": Const(None), "ranks": I.alloc(HDict()), "signature": I.new_list([Const("a")]), "_metadata": I.alloc(HDict()), "_state": I.alloc(HDict())}))], {}
+
+    I_ = Interp(prog)
+    for p in I_.explore(fi.qualname, setup_none):
+        n += 1
+        rep.check(p.outcome[0] == "raise", "IMPACTS.observe", site, "no vector", "an object without impacts has none to hand out: an error, not a made-up vector", extracted=f"{p.outcome[0]} {p.outcome[1]!r}"[:100], required="raise", function=site)
+    rep.floor("save_impacts evaluations", n, 5)
+
+
+def factory_dispatch(rep, ex: Explorer):
+    """FACTORY.dispatch (by evaluation): `create_preocf(name, ...)` constructs the class the name stands for with the caller's
+    arguments in their places, and rejects a name it does not know."""
+    prog = ex.prog
+    qual = "inference.preocf.create_preocf"
+    if qual not in prog.functions:
+        return
+    site = fn_label(prog, qual)
+    want = {"system-z": ZP, "random_min_c_rep": CR, "custom": CUS}
+    n = 0
+    for name in list(want) + ["no-such-system", "System-Z"]:
+        seen = []
+
+        def mk(cls_):
+            def construct(I, fi_, args, kwargs, node, cls_=cls_, seen=seen):
+                seen.append((cls_, tuple(repr(a) for a in args), tuple(sorted((k, repr(v)) for k, v in kwargs.items()))))
+                return Sym(("constructed", cls_))
+            return construct
+
+        def setup(I, name=name):
+            return [Const(name), Sym("ARG1"), Sym("ARG2")], {"metadata": Sym("KW")}
+
+        I_ = Interp(prog, summaries={c: mk(c) for c in want.values()})
+        paths = I_.explore(qual, setup)
+        if ex.report is not None:
+            ex.report.absorb_stats(I_)
+        if len(paths) != 1:
+            raise AnalysisError(f"{site}: {len(paths)} paths for the concrete name {name!r}")
+        p = paths[0]
+        n += 1
+        if name in want:
+            ok = p.outcome[0] == "return" and p.outcome[1] == Sym(("constructed", want[name])) and len(seen) == 1 \
+                and seen[0][1] == (repr(Sym("ARG1")), repr(Sym("ARG2"))) and seen[0][2] == (("metadata", repr(Sym("KW"))),)
+            rep.check(ok, "FACTORY.dispatch", site, f"name {name!r}", "the factory constructs the class the name stands for, with the caller's arguments", extracted=f"{p.outcome[0]} {p.outcome[1]!r}; constructed {seen}"[:200], required=f"{want[name].rsplit('.', 1)[1]}(ARG1, ARG2, metadata=KW)", function=site)
+        else:
+            rep.check(p.outcome[0] == "raise", "FACTORY.dispatch", site, f"name {name!r}", "an unknown name is rejected (no silent default)", extracted=f"{p.outcome[0]} {p.outcome[1]!r}"[:120], required="raise", function=site)
+    rep.floor("create_preocf evaluations", n, 5)
